@@ -1906,6 +1906,10 @@ impl<'a> Visitor<'a, '_, Error> for JSONValidator<'a> {
                 .push(value.to_string());
             }
           }
+        } else {
+          // no feature list was given: the operator only annotates its target
+          // (RFC 9165), which is matched as usual
+          self.visit_type2(target)?;
         }
 
         self.state.ctrl = None;
